@@ -1085,6 +1085,10 @@ class MasterDriver:
         for name, w in self.lost.items():
             if w['t_lo'] is None:
                 w.update(t_lo=t_lo, t_hi=t_hi)
+            else:
+                # told to a master that is gone: if that one had not recorded the server down yet (it died first, or did not
+                # know the server then), its successor does so on its own clock
+                w['t_hi'] = max(w['t_hi'], t_hi)
         z = self.z
         for path in (z.SERVER_PRESENCE, z.SCHEDULED, z.EVENTS, z.BLACKEDOUT_SERVERS):
             self.delivered[path] = self.srv.children(path)
